@@ -318,40 +318,63 @@ class ModelCompiler:
     @staticmethod
     def extract(model, focus):
         extracted_model = Model()
+        # Cells that have been copied, but whose formula has not been
+        # followed yet.
+        pending = []
+
+        def copy_cell(address):
+            if address in model.cells \
+                    and address not in extracted_model.cells:
+                extracted_model.cells[address] = copy.deepcopy(
+                    model.cells[address])
+                pending.append(address)
+
+        def copy_range(rng):
+            for row in rng.cells:
+                for address in row:
+                    copy_cell(address)
+
+        def copy_defined_name(name):
+            if name in extracted_model.defined_names:
+                return
+            extracted_model.defined_names[name] = defn = copy.deepcopy(
+                model.defined_names[name])
+            if isinstance(defn, xltypes.XLCell):
+                copy_cell(defn.address)
+            elif isinstance(defn, xltypes.XLRange):
+                copy_range(defn)
 
         for address in focus:
             if isinstance(address, str) and address in model.cells:
-                extracted_model.cells[address] = copy.deepcopy(
-                    model.cells[address])
+                copy_cell(address)
 
             elif isinstance(address, str) and address in model.defined_names:
+                copy_defined_name(address)
 
-                extracted_model.defined_names[address] = defn = copy.deepcopy(
-                    model.defined_names[address])
+        # Follow the references of the copied formulas (cells, ranges and
+        # defined names) until everything the focus depends on is there.
+        while pending:
+            cell = extracted_model.cells[pending.pop()]
+            if cell.formula is None:
+                continue
+            extracted_model.formulae[cell.address] = cell.formula
+            for term in cell.formula.terms:
+                name = term.split('!')[-1]
+                if term in model.cells:
+                    copy_cell(term)
+                elif term in model.ranges:
+                    extracted_model.ranges[term] = copy.deepcopy(
+                        model.ranges[term])
+                    copy_range(model.ranges[term])
+                elif name in model.defined_names:
+                    copy_defined_name(name)
 
-                if isinstance(defn, xltypes.XLCell):
-                    extracted_model.cells[defn.address] = copy.deepcopy(
-                        model.cells[defn.address])
-
-                elif isinstance(defn, xltypes.XLRange):
-                    for row in defn.cells:
-                        for column in row:
-                            extracted_model.cells[column] = copy.deepcopy(
-                                model.cells[column])
-
-        terms_to_copy = []
-        for addr, cell in extracted_model.cells.items():
-            if cell.formula is not None:
-                for term in cell.formula.terms:
-                    if (term in extracted_model.cells
-                            and cell.formula != model.cells[addr].formula):
-                        cell.formula = copy.deepcopy(model.cells[addr].formula)
-
-                    elif term not in extracted_model.cells:
-                        terms_to_copy.append(term)
-
-        for term in terms_to_copy:
-            extracted_model.cells[term] = copy.deepcopy(model.cells[term])
+        # Named ranges are evaluated through the model's ranges.
+        for defn in extracted_model.defined_names.values():
+            if isinstance(defn, xltypes.XLRange):
+                for address, rng in model.ranges.items():
+                    if rng.cells == defn.cells:
+                        extracted_model.ranges[address] = copy.deepcopy(rng)
 
         extracted_model.build_code()
 
